@@ -17,6 +17,9 @@ class C12Stream(G.TreeStream):
         t = G.totals(roots)
         want = {"grid": t["load"] + t["P"] + t["C"] + t["B"] + t["E"], "consumer": t["load"], "producer": t["P"] + t["C"],
                 "battery": t["B"], "pv": t["P"], "pvids": t["P"], "ev": t["E"], "chp": t["C"]}
+        bsel, psel = G.sel_of(case)
+        want["batsub"] = sum(n["p"] for n in G.walk(roots) if n["k"] == "B" and n["id"] in bsel)
+        want["pvsub"] = sum(n["p"] for n in G.walk(roots) if n["k"] == "P" and (n["id"] in psel or not psel))
         for name in G.FORMULAS:
             f = obs[name]
             if "error" not in f and f["value"] != want[name]:
